@@ -148,6 +148,7 @@ def family(t, sd):
     if t == 'thorough':
         ms += gen.seeded_models(9100 + sd, 30000, maxd=4, names=True, text_mode=True)
     ms = [m for m in ms if 'avg' not in str(m['model'])]   # avg is surface sugar, not a Model node
+    ms = [dict(m, model=gen.rename_vars(m['model'], gen.NAME_STYLES[i % 3])) if i % 3 else m for i, m in enumerate(ms)]
     items += [{'model': m['model']} for m in ms]
     big = [1e-9, 1e9, -1e-9, 123456.789, 0.1, 1 / 3, -2.5e-7, 7e-5, 1e-5, -1e5]
     ls = gen.l_seeded(92, 1500 if t == 'quick' else 20000, named=True, offsets=True, satisfy=True, probe=('coef', 'rhs', 'obj', 'off'))
